@@ -229,3 +229,11 @@ def t_flag_helpers(world, prefix='C11.f'):
 _t11b = tasks
 def tasks(tier):
     return _t11b(tier) + [('flag_helpers', t_flag_helpers)]
+
+
+
+# ---------------------------------------------------------------- shared with C08.b: the Anchor constraint sets of this property's instructions (signer role, has_one = group, vault / PDA bindings)
+_t_shared_structs = tasks
+def tasks(tier):
+    from specs.C08 import shared_struct_tasks
+    return _t_shared_structs(tier) + shared_struct_tasks('C11.g.', ['LendingAccountStartFlashloan', 'LendingAccountEndFlashloan'])
